@@ -414,6 +414,18 @@ func jsonMain(args mon.Args) {
 			run.HarnessError(err.Error())
 			run.Finish()
 		}
+		if strings.Contains(d.Signature, "differs-from-the-wire") && strings.HasPrefix(d.Signature, "json:sflow") {
+			var sc sfCase
+			json.Unmarshal(d.Case, &sc)
+			run.Eval(1)
+			run.DistinctBulk(2)
+			if k, w := runSFCase(&sc); k != "" {
+				run.Violation(d.Signature, w, sc)
+			} else {
+				fmt.Println("replay: the case no longer violates")
+			}
+			run.Finish()
+		}
 		var c jsonCase
 		json.Unmarshal(d.Case, &c)
 		if c.Elements {
@@ -524,6 +536,13 @@ func jsonMain(args mon.Args) {
 			desc, _ := sfDesc(d)
 			c := &jsonCase{Proto: "sflow", Dgrams: []string{mon.Hex(d.Encode())}}
 			one(c, desc, i < 8)
+			// the JSON is compared with the decoded datagram above; the decoded datagram is anchored to the octets
+			// sent here (the C07 comparator), so that "as decoded" cannot drift away from the wire unnoticed
+			sc := &sfCase{Dgram: c.Dgrams[0], Expect: flattenModel(d, nil), Desc: desc}
+			run.Add("sflow_documents_anchored_to_the_wire", 1)
+			if k, w := runSFCase(sc); k != "" {
+				run.Violation("json:sflow:differs-from-the-wire:"+k, w, sc)
+			}
 		}
 	})
 	// canaries: the validators must reject what D7 used to produce
